@@ -219,7 +219,11 @@ func (x *Exec) mergeOutcomes(outs []Outcome, base *pcNode) []Outcome {
 		for _, o := range rets {
 			t, ok := o.St.ghost[k]
 			if !ok {
-				return outs
+				if len(k) > 7 && k[:7] == "ncalls:" {
+					t = BVLit64(0, 64)
+				} else {
+					return outs
+				}
 			}
 			ts = append(ts, t)
 		}
@@ -228,6 +232,36 @@ func (x *Exec) mergeOutcomes(outs []Outcome, base *pcNode) []Outcome {
 			t = Ite(guards[i], ts[i], t)
 		}
 		merged.ghost[k] = t
+	}
+	// ghost call log: keep entries recorded on every path
+	merged.calls = map[string][]Value{}
+	for k, v0 := range rets[0].St.calls {
+		all := true
+		for _, o := range rets[1:] {
+			if v, ok := o.St.calls[k]; !ok || len(v) != len(v0) {
+				all = false
+			}
+		}
+		if !all {
+			continue
+		}
+		var margs []Value
+		okAll := true
+		for i := range v0 {
+			var vals []Value
+			for _, o := range rets {
+				vals = append(vals, o.St.calls[k][i])
+			}
+			m, ok := x.mergeValues(guards, vals)
+			if !ok {
+				okAll = false
+				break
+			}
+			margs = append(margs, m)
+		}
+		if okAll {
+			merged.calls[k] = margs
+		}
 	}
 	// allocation counter
 	a := rets[len(rets)-1].St.alloc
